@@ -38,6 +38,11 @@ CHECKS = {
             "and set/dict membership is compared with linear search; fields_()/tables_ of generated expressions over three tables with colliding column "
             "names are compared with a (table, column) collection computed independently from the program data.",
             "Trusted: the documented table identity (name, schema path, alias); the reference walker over program data."),
+    "C09": ("exhaustive enumeration of (limit, offset, setter plan, ORDER BY, position, class, inline/parameterised); per-dialect tail grammar over the reference lexer; SQLite execution",
+            "The whole product space (about 3900 cases) is enumerated in both tiers: the paginated statement must equal the unpaginated one plus an inserted token "
+            "run that matches the dialect's row-limiting grammar with the limit/offset values (or their placeholders' list entries) in the right slots; "
+            "SQLite-class statements are executed and must return rows[m:m+n].",
+            "Trusted: the row-limiting grammars written from vendor documentation; the reference lexers."),
 }
 
 NOT_BUILT = {}
